@@ -680,6 +680,17 @@ func c12Today(c *fw.Ctx, i int) {
 			c.Violation("today-vs-total", cs, fmt.Sprintf("`klog today` All=%d but `klog %s` prints %q", gall, strings.Join(targs, " "), rt.Stdout))
 			return
 		}
+		// the report's grand total under the same flags equals it, too
+		rargs := []string{"report", "--decimal", "--no-style", "--no-warn", "--aggregate", []string{"day", "week", "month"}[i%3]}
+		if now {
+			rargs = append(rargs, "--now")
+		}
+		rr := clidrv.Run(home, o, append(rargs, path)...)
+		lines := strings.Split(strings.TrimRight(rr.Stdout, "\n"), "\n")
+		if rr.Panicked || rr.Code != 0 || len(lines) < 3 || strings.TrimSpace(lines[len(lines)-1]) != strconv.Itoa(gall) {
+			c.Violation("report-vs-today", cs, fmt.Sprintf("`klog %s` (exit %d) ends with grand total %q, `klog today` All=%d\n%s", strings.Join(rargs, " "), rr.Code, lines[len(lines)-1], gall, rr.Stdout))
+			return
+		}
 		c.Outcome("today")
 	}
 	_ = docgen.DefaultLayout
